@@ -15,6 +15,10 @@
 //	      itself and from Serialize + ReadMessage - must give the original
 //	      (nil and empty slices equal, net.IP.Equal, times to the second);
 //	(iii) Header.MessageLength must equal len(Serialize()).
+//
+// The ready-made AVPs of AVP-typed fields may have a history (created, used once, then changed
+// through their exported fields: template_test.go); the oracle then works on the value as it is at
+// Marshal time, and every such AVP must serialise to the reference image of the hand-built tree.
 package c18
 
 import (
@@ -57,6 +61,11 @@ type Case struct {
 	// Val2: a second value of the type goes through the SAME message afterwards (Marshal, Unmarshal):
 	// an application that reuses its message object.
 	Val2 []FieldV `json:"val2,omitempty"`
+	// Warm, Edits: the AVP objects held by AVP-typed fields have a history (template_test.go): after
+	// their creation they were used once (Warm) and then changed through their exported fields
+	// (Edits); Val is the value as created, the oracle works on the value as the edits leave it.
+	Warm  string    `json:"warm,omitempty"`
+	Edits []TplEdit `json:"edits,omitempty"`
 }
 
 const rule = "struct types generated with reflect.StructOf from a spec: 1..6 fields per level, each a dictionary name of the message's application (dict.Default, the per-file embedded dictionaries, generated dictionaries with all 18 type names) x shape {datatype type | another datatype type that converts losslessly (string kinds among themselves, wider integer / float) | lossless native Go type} x {T, *T, []T, []*T}, diam.AVP / *diam.AVP / []*diam.AVP / []diam.AVP, struct / *struct / []struct / []*struct for grouped AVPs to depth 3, embedded untagged struct, embedded tagged struct x tag form {avp:\"N\", avp:\"N,omitempty\", each alone / after / before a json key, and avp:\"N\" next to a json key that has an omitempty option of its own}; no code twice per struct level; slices optionally with spare capacity; optionally a second value sharing the slices of the first is marshalled into another message afterwards (the first message must not change); optionally (1 in 3) a second, independently generated value of the type goes through the SAME message afterwards (Marshal, then Unmarshal must reproduce it); the message marshalled into is fresh from NewMessage or (3 in 8) already used: carries AVPs added with AddAVP, or the same / a zero value of the struct was marshalled into it before; values incl. zero numbers, empty strings, nil pointers, nil and empty slices; non-trivial = at least 2 fields in total and at least one pointer / slice / nested / embedded shape; distinct by hash of the JSON form of the case"
@@ -98,6 +107,7 @@ const (
 	stWire          = "roundtrip-wire-differs"
 	stLaterMarshal  = "message-changed-by-later-marshal"
 	stSecondRound   = "second-round-through-the-same-message-differs"
+	stAVPFieldImage = "avp-field-image-differs"
 	sigAVPField     = "avp-field-marshal"
 	sigOmitInverted = "omitempty-inverted"
 	sigIPv6QoS      = "ipv6-qos-marshal"
@@ -142,7 +152,13 @@ func core(c Case) *verdict {
 	if err := validate(c.Type, c.Val, 0); err != nil {
 		return &verdict{stage: stHarness, detail: "invalid case: " + err.Error()}
 	}
-	o := &oracle{p: p, app: c.App}
+	if !knownWarm(c.Warm) {
+		return &verdict{stage: stHarness, detail: "unknown warm-up " + c.Warm}
+	}
+	if len(c.Edits) > 0 {
+		c.Val = cloneVals(c.Val) // the edits are applied to a private copy
+	}
+	o := &oracle{p: p, app: c.App, fromField: map[*gen.AVP]bool{}}
 	want, err := o.expect(c.Type, c.Val)
 	if err != nil {
 		return &verdict{stage: stHarness, detail: err.Error()}
@@ -158,7 +174,16 @@ func core(c Case) *verdict {
 	}
 	fillStruct(orig.Elem(), c.Type, c.Val)
 	spareCap = 0
-	show := func() string { return fmt.Sprintf("struct type %s, application %d", clipS400(typ.String()), c.App) }
+	var tpl []tplNode // the AVP objects of the AVP-typed fields, with their abstract counterparts
+	tplRoots(orig.Elem(), c.Type, c.Val, &tpl)
+	warmUp(c, p, typ, orig, tpl)
+	show := func() string {
+		s := fmt.Sprintf("struct type %s, application %d", clipS400(typ.String()), c.App)
+		if c.Warm != "" || len(c.Edits) > 0 {
+			s += fmt.Sprintf("; the AVPs of the AVP-typed fields were created with NewAVP, used once (%q) and then changed through their exported fields by %d edits", c.Warm, len(c.Edits))
+		}
+		return s
+	}
 
 	m := diam.NewMessage(c.Cmd, c.Flags, c.App, 1, 2, p)
 	switch c.Prefill {
@@ -172,6 +197,14 @@ func core(c Case) *verdict {
 		protect(func() error { return m.Marshal(reflect.New(typ).Interface()) })
 	default:
 		return &verdict{stage: stHarness, detail: "unknown prefill " + c.Prefill}
+	}
+	if len(c.Edits) > 0 {
+		// the value changes now: what is marshalled, and expected back, is the value as it is from here on
+		applyEdits(tpl, c.Edits)
+		o.fromField = map[*gen.AVP]bool{}
+		if want, err = o.expect(c.Type, c.Val); err != nil {
+			return &verdict{stage: stHarness, detail: err.Error()}
+		}
 	}
 	err, pan = protect(func() error { return m.Marshal(orig.Interface()) })
 	if pan != "" {
@@ -211,6 +244,10 @@ func core(c Case) *verdict {
 	if int(m.Header.MessageLength) != len(wire) {
 		return &verdict{stage: stLength, detail: fmt.Sprintf("Header.MessageLength is %d after Marshal but the message serialises to %d bytes; %s",
 			m.Header.MessageLength, len(wire), show())}
+	}
+	// (i) again, for the ready-made AVPs of AVP-typed fields: the hand-built AVP's wire image
+	if d := avpFieldImages(want, m.AVP, o.fromField, ""); d != "" {
+		return &verdict{stage: stAVPFieldImage, detail: fmt.Sprintf("%s; %s", d, show())}
 	}
 	// (ii) direct
 	fresh := reflect.New(typ)
@@ -645,6 +682,16 @@ func classify(c Case) (bool, []string) {
 	}
 	if c.Second {
 		cl = append(cl, "second-value-sharing-slices")
+	}
+	if len(c.Edits) > 0 {
+		cl = append(cl, "template:warm-"+c.Warm)
+		seen := map[string]bool{}
+		for _, e := range c.Edits {
+			if !seen[e.Op] {
+				seen[e.Op] = true
+				cl = append(cl, "template:op-"+e.Op)
+			}
+		}
 	}
 	for k := range s.classes {
 		cl = append(cl, k)
